@@ -26,7 +26,7 @@ func runHistory(h historyCase) *vh.Failure {
 	var symkeys, allCiphers [][]byte
 	for li, c := range h.Logins {
 		where := fmt.Sprintf("login %d of %d over one connection (user %q password %d bytes, %d remotes, key %d bits, nonce %d bytes, reject=%q)", li+1, len(h.Logins), c.User, len(c.Password), len(c.Remotes), c.Key.Bits, len(c.Nonce), c.Reject)
-		res := sess.Login(cfg(c, c.Password), script(c), 2*time.Second)
+		res := sess.Login(cfg(c, c.Password), script(c), 20*time.Second)
 		if res.Panic != nil {
 			return vh.Failf("C09/login-panics", "%s: %v", where, res.Panic)
 		}
